@@ -574,6 +574,11 @@ def writer_option_cases(chk: Check):
              ['P', 'Identity', [a, b]], ['P', 'Identity', [b, a]]]
     sents = list(atoms)
     sents += [['U', 'Negation', t] for t in atoms[:8]]
+    # one writer renders all of these in order: a binary sentence on its own, then inside a negation, then the sentence
+    # its parenthesis-free spelling would denote
+    conj = ['B', 'Conjunction', atoms[0], atoms[1]]
+    sents += [conj, ['U', 'Negation', conj], ['B', 'Conjunction', ['U', 'Negation', atoms[0]], atoms[1]],
+              ['B', 'Disjunction', conj, atoms[2]], ['B', 'Conjunction', atoms[0], ['B', 'Disjunction', atoms[1], atoms[2]]]]
     sents += [['B', 'Conjunction', atoms[3], atoms[4]], ['B', 'Conjunction', atoms[4], atoms[3]],
               ['Q', 'Universal', [0, 0], ['P', H3, [x, b, a]]], ['Q', 'Universal', [0, 0], ['P', H3, [a, b, x]]],
               ['Q', 'Existential', [0, 0], ['P', G4, [a, x, c, x]]], ['Q', 'Existential', [0, 0], ['P', G4, [a, x, c, d]]]]
